@@ -42,6 +42,12 @@ func init() {
 			"w=0", "w=32", "string>=50-bytes", "from>=MaxInt32-32", "pathsof/dedup-hit", "pathsof/dedup-off-repeat", "pathsof/all-ones-first", "pathof/h=0", "pathof/h=32"},
 		Families: func(c *mon.Config) []mon.Family {
 			return []mon.Family{
+				{Name: "cold-start", N: 1, Serial: true, Run: func(w *mon.W, _ int) {
+					c11All(w, "")
+					c11All(w, "\xff\xff\xff\xff\xff")
+					c11All(w, "\x00")
+					w.Bucket("cold-start")
+				}},
 				{Name: "small-all", N: len(small), Run: func(w *mon.W, idx int) { c11All(w, small[idx]) }},
 				{Name: "keyzoo-all", N: c.Pick(800, 200000), Run: func(w *mon.W, idx int) {
 					ks := gen.KeyZoo(w.Rng, 1+w.Rng.Intn(3), 1+w.Rng.Intn(9))
